@@ -316,8 +316,10 @@ func (f *Composite) Unpack(data []byte) (int, error) {
 		isVariableLength = true
 	}
 
-	if offset+dataLen > len(data) {
-		return 0, fmt.Errorf("not enough data to unpack, expected: %d, got: %d", offset+dataLen, len(data))
+	// dataLen comes from the wire: compare without adding to it (it may be
+	// close to MaxInt) and never accept a negative length
+	if dataLen < 0 || dataLen > len(data)-offset {
+		return 0, fmt.Errorf("not enough data to unpack, expected: %d bytes after the %d bytes of length prefix, got: %d", dataLen, offset, len(data))
 	}
 	// data is stripped of the prefix before it is provided to unpack().
 	// Therefore, it is unaware of when to stop parsing unless we bound the
@@ -657,6 +659,10 @@ func (f *Composite) unpackSubfieldsByTag(data []byte) (int, string, error) {
 				fieldLength, read, err := pref.DecodeLength(maxLen, data[offset:])
 				if err != nil {
 					return 0, "", err
+				}
+				// the value of the skipped element must lie within the composite
+				if fieldLength < 0 || fieldLength > len(data)-offset-read {
+					return 0, tag, fmt.Errorf("failed to skip unknown subfield %v: its length %d exceeds the remaining %d bytes", tag, fieldLength, len(data)-offset-read)
 				}
 				offset += fieldLength + read
 				continue
